@@ -125,6 +125,16 @@ CLAIMED = {
    note=TB + "JSON text is compared after canonicalisation (member order kept, strings hex-encoded): Go's string escaping is not modelled. The request shapes of lock verification and object verification are transcribed by hand from docs/api/locking.md and basic-transfers.md (no schema file is published). The GET /locks query is judged by the harness oracle only. ssh (pure SSH protocol) requests are out of scope. D10, D32, D33, D34 fixed in /repo.",
    technique="Lean 4 proof (schema validation of the model's struct encoder by simp over regenerated schemas and tag tables, list induction for the object array) + differential correspondence vs tq.Batch / locking client + schema validation of every captured request",
    ref="§5 C18"),
+ "C04": dict(
+   text="Lean theorems over the executable model of singleCheckout.Run + SmudgeToFile with the real pointer decoder model (C07) plugged in: for EVERY byte string in the working tree, recorded pointer and store, pull/checkout modify a file only if "
+        "its content decodes to a pointer with the recorded oid (run_never_clobbers); non-pointers, files >= 1024 bytes, emptied files, other pointers, unreadable files and index-deleted paths are untouched; the canonical pointer file and a missing "
+        "file become the object's bytes when it is local, stay/become the canonical pointer when not; what is written hashes to the recorded oid for an intact store; Filter.Allows is characterised for every pattern list/matcher/default (allows_spec); "
+        "pointersToFetch is complete and minimal, and fetch from an intact store with hash-valid arrivals (C02) leaves every non-empty pointer with a hash-valid object. Correspondence: Filter.Allows in process over table-driven Pattern stubs; scenarios with "
+        "the real binary (history on a bare remote + fake server, clone at branch/tag with skip-smudge, objects pre-populated locally / in a reference store, include/exclude by config or -I/-X, 14 kinds of local working-file states, then fetch / fetch --all / "
+        "pull / checkout [path] / clone with smudge / git checkout with smudge): every path judged by a direct oracle and every pull/checkout outcome compared with the model's run.",
+   note=TB + "The wildmatch library is outside the model (the matcher is a parameter of allows_spec; the scenarios use patterns with a hand-written meaning). Symlinked working files, the clonefile/copy-on-write path and `checkout --to/--ours/--theirs` are not generated. Interpretation I1: a same-oid pointer in another spelling counts as the recorded pointer.",
+   technique="Lean 4 proof (case analysis of the checkout decision over the C07 decoder model; filter and fetch set lemmas) + differential correspondence in process (Allows) and through real-binary scenarios (run)",
+   ref="§5 C04"),
 }
 PENDING_REASON = "check not built yet in this session (build in progress, see DESIGN.md §10); not claimed until its theorems and correspondence run"
 ALL = ["C%02d" % i for i in range(1, 21)]
